@@ -303,7 +303,7 @@ func determinismSample(bin, prop, scratch string) string {
 
 // properties whose statement includes "without data races": part of the budget
 // is spent on the same search under a -race build
-var raceProps = map[string]bool{"C09": true, "C14": true}
+var raceProps = map[string]bool{"C06": true, "C09": true, "C14": true}
 
 func raceEnv(scratch string) []string {
 	prefix := filepath.Join(scratch, "race")
